@@ -64,6 +64,9 @@ Definition ps_add_named (p : portset) (n : string) : portset :=
   mkPS (ps_ports p) (sset_add n (ps_named p)) (sset_del n (ps_excl p)).
 Definition ps_add_num (p : portset) (n : Z) : portset :=
   mkPS (iadd_ivl (n, n) (ps_ports p)) (ps_named p) (ps_excl p).
+(* the name is dropped without being recorded as excluded (ReplaceNamedPortWithMatchingPortNum) *)
+Definition ps_drop_named (p : portset) (n : string) : portset :=
+  mkPS (ps_ports p) (sset_del n (ps_named p)) (ps_excl p).
 Definition ps_remove_named (p : portset) (n : string) : portset :=
   mkPS (ps_ports p) (sset_del n (ps_named p)) (sset_add n (ps_excl p)).
 Definition ps_remove_num (p : portset) (n : Z) : portset :=
@@ -92,7 +95,9 @@ Definition ps_containedin (p o : portset) : bool :=
 Definition ps_inter (p o : portset) : portset :=
   mkPS (iinter (ps_ports p) (ps_ports o)) (ps_named p) (ps_excl p).
 
-Definition ps_isall (p : portset) : bool := ps_equal p (ps_make true).
+(* IsAll: all the port numbers and no excluded named port (named ports add nothing to the full range) *)
+Definition ps_isall (p : portset) : bool :=
+  iset_eqb (ps_ports p) (ifull minPort maxPort) && match ps_excl p with [] => true | _ => false end.
 
 Definition ps_contains (p : portset) (n : Z) : bool := imem n (ps_ports p).
 
@@ -272,7 +277,7 @@ Definition cs_replace_named (c : connset) (p : proto) (name : string) (num : Z) 
   | None => c
   | Some ps =>
       let ps1 := if num =? NoPort then ps else ps_add_num ps num in
-      cs_set c p (Some (ps_remove_named ps1 name))
+      cs_set c p (Some (ps_drop_named ps1 name))
   end.
 
 (* ProtocolsAndPortsMap / ConnStrFromConnProperties: what a Peer2PeerConnection carries *)
